@@ -671,6 +671,122 @@ def kf5(case, msg, line):
     return removed > 0 and kept == want
 
 
+# ---------------------------------------------------------------- C02 / C03 / C13 (generator-based)
+
+def witness_findings(run, gv, judge):
+    """known findings that the generator avoids: run each listed witness; while it still fails, report it"""
+    for k in known_entries(run.prop):
+        w = k.get("witness")
+        if not w or k["id"] in KNOWN_CLASSIFIERS:
+            continue
+        line = vlib.run_records(gv, "parse", [w])[0]
+        if judge(k, w, line):
+            run.known_finding("%s: %s (e.g. %r)" % (k["id"], k["what"], w[:80]))
+
+
+def oracle_accept(c, line, tl):
+    if c.family != "F-valid":
+        return None
+    return None if line.startswith("OK ") else "valid Go rejected: %s" % line[:80]
+
+
+def fam_valid_styles(nq, styles):
+    def f(run):
+        progs, hit, labels = pfam.gen_programs(seed_of(run), budget(run, nq, nq * 8))
+        run.extra["generator_coverage"] = {"labels_hit": len(hit & labels), "labels": len(labels),
+                                            "avoided_known_defects": sorted(k for k, v in pfam.gogen.AVOID.items() if v)}
+        return pfam.valid_cases(progs, styles)
+    return f
+
+
+def check_c02(run, replay):
+    base = parser_check(
+        "C02", "theories/props/C02.v", "outcome", oracle_accept,
+        "every syntactically valid Go file is accepted",
+        "grammar-directed generator over the Go spec's EBNF (every production x context pair of its coverage matrix, nesting < 12) rendered "
+        "in 7 layout styles (canonical, newlines, explicit semicolons, random blanks/tabs/newlines, comments in gaps, CRLF, dense) with "
+        "optional semicolons / trailing commas toggled; every rendering must be accepted by the crate (and by the model: projection "
+        "outcome); constructs hit by a listed known finding are not generated, their witnesses are run separately; "
+        "non-trivial = all (distinct renderings)",
+        fam_valid_styles(250, pfam.STYLES), tokens=False,
+        extra=lambda run, fam, gv, gm: witness_findings(run, gv, lambda k, w, l: not l.startswith("OK ")))
+    return base(run, replay)
+
+
+def check_c03(run, replay):
+    base = parser_check(
+        "C03", "theories/props/C03.v", "shape", pfam.oracle_expected_shape,
+        "the tree is the derivation the Go spec assigns to the source",
+        "the same generator: each program is built as a derivation tree first and rendered afterwards; the crate's tree with positions, "
+        "comments, docs and empty statements removed must equal the derivation (tags, identifier and literal texts, operators, keywords, "
+        "flags); crate and model compared on the same projection; non-trivial = all (distinct renderings)",
+        fam_valid_styles(250, ("canonical", "random", "comments", "dense")), tokens=False,
+        extra=lambda run, fam, gv, gm: witness_findings(
+            run, gv, lambda k, w, l: l.startswith("OK ") and "TypePointer" not in l))
+    return base(run, replay)
+
+
+def check_c13(run, replay):
+    run.trusted = vlib.BASE_TRUST
+    gv, gm, _ = prepare(run)
+    if replay:
+        replay_parse(run, replay, gv, gm)
+        return
+    broken = prove(run, "theories/props/C13.v")
+    fam = Families(run, gv, gm)
+    k = budget(run, 3, 8)
+    progs, hit, labels = pfam.gen_programs(seed_of(run), budget(run, 300, 1500))
+    styles = ("canonical",) + tuple(("random", "comments", "newlines", "semicolons", "crlf", "dense", "random", "comments")[:k])
+    cases = pfam.valid_cases(progs, styles)
+    impl, mod, toks = fam.exec(cases)
+    ref = {}
+    for c, l in zip(cases, impl):
+        if c.style == "canonical" and c.prog not in ref:
+            ref[c.prog] = pfam.proj_shape(l)
+
+    def oracle(c, line, tl):
+        sh = pfam.proj_shape(line)
+        if sh != ref[c.prog]:
+            return "rendering %s of the same token sequence gives another result than the canonical rendering: %s" % (
+                c.style, pfam.sexpr.first_diff(ref[c.prog], sh) if sh.startswith("(") and ref[c.prog].startswith("(") else (ref[c.prog][:60], sh[:60]))
+        return None
+    fam.judge(cases, impl, mod, toks, "shape", oracle, "layout never changes the tree")
+    # mutants too: the accept/reject decision and the error token must not depend on layout either
+    mcases = []
+    for i, (rng, p) in enumerate(progs[: len(progs) // 2]):
+        toksm = pfam.mutate_tokens(rng, p.tokens, 1 + rng.randrange(2))
+        for st in ("canonical", "random", "comments"):
+            try:
+                mcases.append(pfam.Case(pfam.gogen.render(toksm, rng, st), "F-mut-layout", i, st))
+            except Exception:
+                pass
+    impl2, mod2, toks2 = fam.exec(mcases)
+    # the premise of the property is checked, not assumed: only renderings whose token sequence after
+    # semicolon insertion (independent spec lexer) is the same are compared
+    ref2 = {}
+    keys = []
+    for c, l in zip(mcases, impl2):
+        try:
+            key = (c.prog, tuple((k, t) for p_, k, t in pfam.spec_lex(c.src) if k != "C"))
+        except ValueError:
+            key = None
+        keys.append(key)
+        if key is not None and key not in ref2:
+            ref2[key] = pfam.proj_shape(l)
+    keyof = {id(c): k for c, k in zip(mcases, keys)}
+    fam.judge(mcases, impl2, mod2, toks2, "shape",
+              lambda c, l, t: None if keyof[id(c)] is None or pfam.proj_shape(l) == ref2[keyof[id(c)]] else
+              "the same (mutated) token sequence is %s in one layout and %s in another" % (ref2[keyof[id(c)]][:40], pfam.proj_shape(l)[:40]),
+              "layout never changes the accept/reject decision")
+    run.cov["rule"] = ("generated valid programs x %d independently randomised renderings of the same token sequence (blanks, tabs, CRLF, "
+                       "comments in any gap, line breaks where no semicolon is inserted, optional semicolons and trailing commas written "
+                       "or omitted), plus mutated token sequences in 3 renderings; all renderings of one token sequence must give the "
+                       "same tree up to positions and comments / the same accept-reject decision; crate and model compared on the shape "
+                       "projection; non-trivial = all (distinct renderings)" % (k + 1))
+    run.cov["samples"] = [c.src[:300] for c in cases[:: max(1, len(cases) // 5)]][:5]
+    fam.finish(broken)
+
+
 KNOWN_CLASSIFIERS = {"KF-5": kf5, "KF-21": kf21}
 
 REGISTRY = {
@@ -684,4 +800,7 @@ REGISTRY = {
     "C07": check_c07,
     "C08": check_c08,
     "C16": check_c16,
+    "C02": check_c02,
+    "C03": check_c03,
+    "C13": check_c13,
 }
